@@ -144,6 +144,14 @@ class C18(Prop):
             format_agp(Assembly("x", scaffolds=[Scaffold("scf", objs)]), buf)
             objs = list(parse_agp(io.StringIO(buf.getvalue()), "x").scaffolds[0].rows)
         ia = IndexedAssembly("asm", scaffolds=[Scaffold("scf", objs)])
+        if len(objs) % 2:
+            # a second scaffold of the same name, refused: the first one's index must not have been touched
+            try:
+                from tola.assembly.fragment import Fragment as _F0
+
+                ia.add_scaffold(Scaffold("scf", [_F0("other", 1, 37, 1), _F0("other2", 1, 3, 1)]))
+            except ValueError:
+                pass
         bait = A.row_to_obj(case["bait"])
         if case.get("pre_mutate"):
             # other results of the same scaffold, edited before the one under observation is looked up
